@@ -175,6 +175,7 @@ func edits() []Op {
 		tog("const:K", func(v *Vars) { v.K = (v.K + 1) % len(kvals) }),
 		tog("const:K int<->float", func(v *Vars) { v.KF = !v.KF }),
 		tog("global:ORD order", func(v *Vars) { v.Ord = !v.Ord }),
+		tog("sources:leaf +-c.txt", func(v *Vars) { v.XSrc = !v.XSrc }),
 		tog("default:leaf.d", func(v *Vars) { v.D = 1 - v.D }),
 		tog("code:helper", func(v *Vars) { v.H = 1 - v.H }),
 		tog("global:G", func(v *Vars) { v.G = 1 - v.G }),
@@ -257,6 +258,7 @@ func focused(prop string, thorough bool) []focus {
 			{[]string{"link:dir/link", "edit:misc/n.txt", "edit:dir/x.txt", "build:mid", "build:top"}, 7 + d},
 			{[]string{"link:dir/link dangling", "edit:dir/x.txt", "addremove:dir/w.txt", "build:mid", "build:top"}, 6 + d},
 			{[]string{"edit:pkg/b.txt", "default:leaf.d", "flag:mode", "build:leaf", "build:top"}, 7 + d},
+			{[]string{"sources:leaf +-c.txt", "edit:pkg/b.txt", "build:leaf", "build:top"}, 6 + d},
 			{[]string{"global:LATE", "delete:gen/g.txt", "fail:gen", "build:gen", "build:top"}, 7 + d},
 			{[]string{"fail:mid", "edit:dir/x.txt", "build:mid", "build:top"}, 8 + d},
 			{[]string{"edit:pkg/b.txt", "edit:src/a.txt", "build:gen+top(one load)", "build:leaf+top(one load)", "build:mid+top(one load)", "build:top"}, 5 + d},
